@@ -29,6 +29,18 @@ def scenarios(rep, tier, seed):
             rep.skip("non_finite_precomputed_matrix")
             continue
         scns.append(scn)
+    # dissimilarities in very small units (features of magnitude 1e-12 under squared metrics, matrices scaled by 1e-24 / 1e-200):
+    # a strictly better offer is better however small the difference
+    import numpy as np
+    for i in range(200 if thorough else 40):
+        scn = S.random_float_scenario(rng, metric=rng.choice(["squared_euclidean", "euclidean", "manhattan"]), n=rng.randrange(3, 10), nq=2, mode=("pre" if i % 2 else "metric"))
+        scale = rng.choice([1e-12, 1e-9, 1e-100])
+        scn["Z"] = (np.array(scn["Z"]) * scale).tolist()
+        if not S.materialise_pre(scn):
+            continue
+        if scn["mode"] == "pre" and i % 4 == 1:
+            scn["D"] = (np.array(scn["D"]) * 1e-12).tolist()
+        scns.append(scn)
     return scns
 
 
